@@ -52,11 +52,11 @@ func init() {
 			"CA / certificate / key files on the real file system (temporary directory)"},
 		Stub: []string{"TCP (simnet; the node's end is a net.Conn adaptor)", "clock (testing/synctest; certificates are valid 1990-2100)",
 			"Cassandra node: CQL responder over crypto/tls (TLS half), node.Cluster state machine (authentication half), both over the independent cqlspec codec",
-			"host names: only IPv4 / IPv6 literals with and without port (no resolver seam)"},
+			"host names: only \"localhost\", through the real resolver (/etc/hosts; resolved once outside any bubble, see secLocalhost); other names need a resolver seam the driver does not have"},
 		Rule: "one run = one tape-chosen cell. TLS half: {Config nil | present with InsecureSkipVerify false/true} x EnableHostVerification x ServerName {unset, matching, not matching} (14 rows of the documented table) " +
 			"x Config.RootCAs {nil, harness CA, other CA} x CaPath {absent, harness CA, other CA, both, missing, garbage, empty, corrupt DER, key instead of certificate, directory} " +
 			"x key pair {absent, valid, cert missing, key missing, cert garbage, key garbage, key of another cert, cert path only, key path only} " +
-			"x certificate presented {right, other CA, wrong name, only the dialled IP, only a DNS name} x host {IPv4, IPv4:port, IPv6, [IPv6]:port} x control connection on/off x TLS 1.3/1.2 x authentication over TLS on/off; " +
+			"x certificate presented {right, other CA, wrong name, only the dialled IP, only a DNS name} x host {IPv4, IPv4:port, IPv6, [IPv6]:port, localhost, localhost:port - resolved by the driver itself; the certificates are then valid for name+address, address only, name only (probe tls.namecell:*)} x control connection on/off x TLS 1.3/1.2 x authentication over TLS on/off; " +
 			"in half of the cells with verification on, no ServerName and good files a second node 10.0.0.2 / fd00::2 is discovered through system.peers and dialled after the first, presenting its own certificate (only SAN: its own address) or, in a third of those, the first node's (probes tls.two-nodes*); " +
 			"core table = 14 rows x chain trusted/untrusted x 5 certificates = 140 cells (probe tls.cell:*). " +
 			"Authentication half: class demanded {none, each of the 10 built-in approved classes, a class only on the caller's list, unknown, 4 near-misses of an approved class} x client {none, PasswordAuthenticator default list, custom list, custom list + one default, AuthProvider} x 7 credential pairs x control connection on/off (probe auth.cell:*). " +
@@ -565,6 +565,38 @@ func (n *secTLSNode) respond(sc *secTLSConn, rq *cqlspec.Request) (*cqlspec.Resp
 // ---------------------------------------------------------------------------------
 // TLS half
 
+// secLocalName is the only host name the scenario can use: the driver resolves contact
+// points with net.LookupIP and has no resolver seam; "localhost" is answered from
+// /etc/hosts without any network.
+const secLocalName = "localhost"
+
+// secLocalhost is what "localhost" resolves to, looked up ONCE at package initialisation,
+// i.e. outside any synctest bubble. This is not an optimisation: the first lookup of a
+// process creates net's resolver-configuration semaphore channel; created inside a bubble
+// it belongs to that bubble and the next bubble that resolves a name dies with "fatal
+// error: send on synctest channel from outside bubble". Initialised out here the resolver
+// is safe to use inside bubbles (measured: 5000 bubbles x 2 lookups, same answer, zero
+// simulated time, no goroutine left); the hosts-file cache never expires there because
+// the fake clock is behind the real one.
+var secLocalhost, secLocalhostUsable = func() ([]string, bool) {
+	ips, err := net.LookupIP(secLocalName)
+	if err != nil {
+		return nil, false
+	}
+	var out []string
+	ok := false
+	for _, ip := range ips {
+		if !ip.IsLoopback() {
+			return nil, false
+		}
+		out = append(out, ip.String())
+		if ip.String() == "127.0.0.1" {
+			ok = true
+		}
+	}
+	return out, ok
+}()
+
 const (
 	secNameRight = "node1.sim.test"
 	secNameWrong = "other.sim.test"
@@ -578,7 +610,7 @@ var (
 	secCaNames    = []string{"absent", "ca1", "ca2", "both", "missing", "garbage", "empty", "corruptder", "keypem", "directory"}
 	secKPNames    = []string{"absent", "valid", "certmissing", "keymissing", "certgarbage", "keygarbage", "mismatch", "certonly", "keyonly"}
 	secCertNames  = []string{"right", "otherca", "wrongname", "iponly", "dnsonly"}
-	secHostNames  = []string{"v4", "v4port", "v6", "v6port"}
+	secHostNames  = []string{"v4", "v4port", "v6", "v6port", "name", "nameport"}
 	secCaBadFrom  = 4 // CaPath variants from this index on must be reported as errors
 	secKPBadFrom  = 2
 	secGarbageTxt = "this is not PEM\n-----BEGIN NOTHING-----\nAAAA\n"
@@ -601,7 +633,7 @@ func secTLS(e *Env) {
 	certKind := tp.Next(5)
 	caSel := tp.Weighted([]int{40, 60, 10, 10, 1, 1, 1, 1, 1, 1})
 	kpSel := tp.Weighted([]int{80, 30, 1, 1, 1, 1, 1, 1, 1})
-	hostForm := tp.Next(4)
+	hostForm := tp.Next(6)
 	control := tp.Next(2) == 1
 	tls12 := tp.Chance(1, 4)
 	authTLS := tp.Chance(1, 6)
@@ -631,7 +663,14 @@ func secTLS(e *Env) {
 	// decides "the name of the host being dialled" per dial. Only where it can matter
 	// (verification on, no explicit ServerName) and where nothing else is wrong (files good,
 	// the harness CA trusted), so that both nodes must be connected to.
-	twoNodes := twoDraw && ((!cfgPresent && ehv) || (cfgPresent && !(isv && !ehv))) && sn == 0 &&
+	if hostForm >= 4 && !secLocalhostUsable {
+		k.Probe("tls.name-host-unavailable") // "localhost" does not resolve to 127.0.0.1 here
+		hostForm = 0
+	}
+	// host given by NAME: the contact point "localhost" is resolved by the driver itself
+	// (net.LookupIP); the dialler gets the IP, the name to verify is the name.
+	nameForm := hostForm >= 4
+	twoNodes := twoDraw && !nameForm && ((!cfgPresent && ehv) || (cfgPresent && !(isv && !ehv))) && sn == 0 &&
 		caSel < secCaBadFrom && kpSel < secKPBadFrom && (caSel == 1 || caSel == 3 || rootSel == 1)
 	swapped := twoNodes && swapDraw // the second node presents the FIRST node's certificate
 	if twoNodes {
@@ -673,12 +712,20 @@ func secTLS(e *Env) {
 	}
 
 	// ---- addresses ----
-	v6 := hostForm >= 2
+	v6 := hostForm == 2 || hostForm == 3
 	addr, otherAddr := "10.0.0.1", "10.0.0.99"
 	if v6 {
 		addr, otherAddr = "fd00::1", "fd00::99"
 	}
-	hostArg := []string{"10.0.0.1", "10.0.0.1:9042", "fd00::1", "[fd00::1]:9042"}[hostForm]
+	if nameForm {
+		addr, otherAddr = "127.0.0.1", "127.0.0.99"
+	}
+	hostArg := []string{"10.0.0.1", "10.0.0.1:9042", "fd00::1", "[fd00::1]:9042", secLocalName, secLocalName + ":9042"}[hostForm]
+	// the name to verify when no ServerName is configured: the host as the caller gave it
+	verifyName := addr
+	if nameForm {
+		verifyName = secLocalName
+	}
 	hostIP := net.ParseIP(addr)
 
 	addrB := "10.0.0.2"
@@ -708,15 +755,24 @@ func secTLS(e *Env) {
 	switch certKind {
 	case 0:
 		leafIPs, leafDNS = []net.IP{hostIP}, []string{secNameRight}
+		if nameForm {
+			leafDNS = append(leafDNS, secLocalName) // valid for the name and for the address
+		}
 	case 1:
 		issuer = ca2
 		leafIPs, leafDNS = []net.IP{hostIP}, []string{secNameRight}
+		if nameForm {
+			leafDNS = append(leafDNS, secLocalName)
+		}
 	case 2:
 		leafIPs, leafDNS = []net.IP{net.ParseIP(otherAddr)}, []string{secNameElse}
 	case 3:
 		leafIPs = []net.IP{hostIP}
 	case 4:
 		leafDNS = []string{secNameRight}
+		if nameForm {
+			leafDNS = []string{secLocalName} // valid for the name the caller gave, not for the address
+		}
 	}
 	leaf = issuer.issue("node", 10, leafIPs, leafDNS, false)
 
@@ -833,7 +889,15 @@ func secTLS(e *Env) {
 	chainOK := (certKind != 1 && trust1) || (certKind == 1 && trust2)
 	nameOK := false
 	switch sn {
-	case 0: // no explicit server name: the host being dialled
+	case 0: // no explicit server name: the host being dialled, as the caller named it
+		if nameForm {
+			for _, d := range leafDNS {
+				if d == secLocalName {
+					nameOK = true
+				}
+			}
+			break
+		}
 		for _, ip := range leafIPs {
 			if ip.Equal(hostIP) {
 				nameOK = true
@@ -851,6 +915,12 @@ func secTLS(e *Env) {
 	if !badFile {
 		k.Probe(fmt.Sprintf("tls.cell:%s/ehv=%v/sn=%s/chain=%v/%s", secCfgNames[cfgState], ehv, secSNNames[sn], chainOK, secCertNames[certKind]))
 		k.Probe(fmt.Sprintf("tls.expect:verify=%v,chain=%v,name=%v", verify, chainOK, nameOK))
+		if nameForm {
+			k.Probe(fmt.Sprintf("tls.namecell:%s/ehv=%v/sn=%s/chain=%v/%s", secCfgNames[cfgState], ehv, secSNNames[sn], chainOK, secCertNames[certKind]))
+			if verify && sn == 0 && chainOK {
+				k.Probe("tls.name-host:verified-by-name/" + secCertNames[certKind])
+			}
+		}
 	} else {
 		if caSel >= secCaBadFrom {
 			k.Probe("tls.badfile:capath=" + secCaNames[caSel])
@@ -888,6 +958,17 @@ func secTLS(e *Env) {
 	cfg.ConnectObserver = obs
 	if !control {
 		gocql.VerifDisableControlConn(cfg, true)
+	}
+	if nameForm {
+		// With the initial host lookup the pool host is rebuilt from system.local, which
+		// knows addresses only; what "the name of the host being dialled" is then is not
+		// documented. Judged: the connections to the contact point as the caller named it.
+		cfg.DisableInitialHostLookup = true
+		for _, ip := range secLocalhost {
+			if ip != addr {
+				cl.Net.SetDialMode(ip, simnet.DialRefuse) // other addresses of the name: nothing listens
+			}
+		}
 	}
 	if authTLS {
 		cfg.Authenticator = gocql.PasswordAuthenticator{Username: authUser, Password: authPass}
@@ -957,7 +1038,7 @@ func secTLS(e *Env) {
 				why = "the certificate is not valid for the name to verify"
 				if sn == 0 {
 					sig = "C20/server-name-not-host"
-					why = "no ServerName was configured, so the name to verify is the dialled host " + addr + ", for which the certificate is not valid"
+					why = "no ServerName was configured, so the name to verify is the dialled host " + verifyName + ", for which the certificate is not valid"
 				}
 			}
 			k.Violate("C20", sig, "%s: the documented table says verify, %s, yet the driver completed a TLS handshake (session created=%v)", desc, why, connected)
@@ -972,7 +1053,7 @@ func secTLS(e *Env) {
 			case !verify && certErr:
 				k.Violate("C20", "C20/verified-when-disabled", "%s: the documented table says do not verify, yet the handshake failed verification: %v", desc, firstDialErr)
 			case verify && sn == 0 && nameErr:
-				k.Violate("C20", "C20/server-name-not-host", "%s: the certificate is valid for the dialled host %s and chains to a configured root, yet it was refused for its name: %v", desc, addr, firstDialErr)
+				k.Violate("C20", "C20/server-name-not-host", "%s: the certificate is valid for the dialled host %s and chains to a configured root, yet it was refused for its name: %v", desc, verifyName, firstDialErr)
 			case verify:
 				k.Violate("C20", "C20/refused-valid-server", "%s: the certificate chains to a configured root and matches the name to verify, yet the connection was refused: %v", desc, firstDialErr)
 			default:
